@@ -12,4 +12,5 @@ CONSTANTS
   Others = {"r2"}
   FixF1 = TRUE
   FixF2 = TRUE
+  FixF3 = TRUE
 CHECK_DEADLOCK FALSE
